@@ -98,3 +98,29 @@ package pointindex
 //@   ensures[C09] result != nil ==> 0 <= wa && wa < len(polygon) && 0 <= wb && wb < len(polygon[wa]) && !inGridF(ix, polygon[wa][wb])
 //@   ensures[C09] result != nil ==> typeIs(result, "pointindex.OutsideGridError")
 //@   ensures wfIndex(ix)
+
+// ---------------------------------------------------------------------------------------------
+// C02: the pixel test. "meets" is existential (exists t. meetsAt(l, e, t)); a positive answer supplies a witness,
+// a negative answer is proved for an arbitrary t. int64 ordinates are relaxed to reals (mode real), which covers
+// the integers; cmpFrac is proved over the integers (its real domain) and used here at integer-valued arguments.
+//
+//@ func cmpFrac
+//@   prelude arith
+//@   requires b > 0 && d > 0 && a > 0 - 9223372036854775808 && c > 0 - 9223372036854775808
+//@   ensures[C02] (result < 0) == (a*d < c*b)
+//@   ensures[C02] (result == 0) == (a*d == c*b)
+//@   ensures[C02] 0 - 1 <= result && result <= 1
+
+//@ macro ordOK(o) = 0 - 2305843009213693952 <= o && o <= 2305843009213693952
+//@ macro lineOK(l) = ordOK(l[0][0]) && ordOK(l[0][1]) && ordOK(l[1][0]) && ordOK(l[1][1])
+//@ macro extentOK(e) = ordOK(e[0]) && ordOK(e[1]) && ordOK(e[2]) && ordOK(e[3]) && e[0] < e[2] && e[1] < e[3]
+
+//@ func lineIntersects
+//@   mode real
+//@   prelude geom
+//@   requires lineOK(intLine) && extentOK(intExtent)
+//@   loop ax unroll 2
+//@   witness w = (lo.num / lo.den + hi.num / hi.den) / 2
+//@   witness w = ite(intExtent[0] <= intLine[0][0] && intLine[0][0] < intExtent[2] && intExtent[1] <= intLine[0][1] && intLine[0][1] < intExtent[3], 0, 1)
+//@   ensures[C02] result ==> meetsAt(intLine, intExtent, w)
+//@   ensures[C02] !result ==> forall(t Real, !meetsAt(intLine, intExtent, t))
